@@ -8,6 +8,8 @@ ROOT = os.path.dirname(os.path.dirname(os.path.abspath(__file__)))
 rows = []
 for f in sorted(glob.glob(os.path.join(ROOT, 'seeded', '*', 'meta.json'))):
     m = json.load(open(f))
+    if m.get('kept') is False:
+        continue          # not confirmed (the demonstration did not separate the trees): not a seed
     sid = m['id']
     what = m.get('what', '')
     checks = m.get('checks', {})
